@@ -103,8 +103,6 @@ verifNextPass:
 			if unique[cap] {
 				if cap != w { // w is "polish"
 					delete(unique, cap) // delete won't change what is in range
-				} else {
-					unCapable++
 				}
 			}
 		}
@@ -118,7 +116,12 @@ verifNextPass:
 	var ourWords []string
 	for w := range unique {
 		ourWords = append(ourWords, w)
-
+		// Count the words that capitalization does not change only now:
+		// a capitalized twin ("Polish") may have been visited above before
+		// the pass reached "polish" and deleted it.
+		if strings.Title(w) == w {
+			unCapable++
+		}
 	}
 
 	ourWords = verifOrderWords(ourWords)
